@@ -99,6 +99,13 @@ Theorem C03_wide_rev_context_refuted :
   /\ kf_wide_rev_context d_wrc m_wrc = true.
 Proof. exact wide_rev_context_refuted. Qed.
 
+Theorem C03_length_by_arrival_refuted :
+  Lens (flags_of md_hex) w_len h_len 0 = [8; 6; 4]
+  /\ model_scan d_len w_len 1000 = [(0, 6)]
+  /\ len_choice_ok [8; 6; 4] 6 = false
+  /\ kf_len_arrival d_len (Lens (flags_of md_hex) w_len h_len) w_len = true.
+Proof. exact length_by_arrival_refuted. Qed.
+
 Theorem C03_empty_class_pinned_refuted :
   starts_spec (flags_of md_re) [97;98] h_ec = [] /\ model_scan d_ec [97;98] 1000 = [(0, 2)].
 Proof. exact empty_class_pinned_refuted. Qed.
@@ -132,4 +139,5 @@ Print Assumptions C03_start_position_refuted.
 Print Assumptions C03_fullword_single_length_refuted.
 Print Assumptions C03_nocase_negated_class_pinned_refuted.
 Print Assumptions C03_empty_class_pinned_refuted.
+Print Assumptions C03_length_by_arrival_refuted.
 Print Assumptions C03_wide_rev_context_refuted.
